@@ -15,6 +15,7 @@ def vectors(rng, k):
     vs = [dict()]
     for o in OPTS:
         vs.append({o: True})
+    vs.append({"propagate_evidence": True, "propagate_weights": True})
     vs.append({o: True for o in OPTS if o != "keep_all"})
     vs.append({o: True for o in OPTS})
     for _ in range(k):
@@ -28,6 +29,7 @@ def run(ctx):
     P += common.family_small(ctx.pick(40, 500), ctx.seed + 5000)
     P += common.cyclic_family(ctx.pick(60, 800), ctx.seed + 5100, evidence=1.0)
     P += common.ad_family(ctx.pick(80, 1000), ctx.seed + 5200)
+    P += common.evidence_family(ctx.pick(150, 2000), ctx.seed + 5300)
     vecs = vectors(rng, ctx.pick(4, 28))
     pairs = set()
 
